@@ -9,6 +9,7 @@ import TonVerif.Drv.Crc
 import TonVerif.Drv.Cell
 import TonVerif.Drv.Builder
 import TonVerif.Drv.BocParse
+import TonVerif.Drv.Proof
 
 open TonVerif TonVerif.Drv
 
@@ -17,6 +18,7 @@ def handlers : List (String → List String → Option String) := [
   Cell.handle?,
   Builder.handle?,
   BocParse.handle?
+  Proof.handle?
 ]
 
 def handle (op : String) (args : List String) : String :=
